@@ -41,11 +41,13 @@ func (v *Val) UnmarshalJSON(b []byte) error {
 		T string            `json:"t"`
 		P []int             `json:"p"`
 		E []json.RawMessage `json:"e"`
+		M string            `json:"msg"`
 	}
 	if err := json.Unmarshal(b, &raw); err != nil {
 		return err
 	}
 	v.T = raw.T
+	v.M = raw.M
 	v.P = unB(raw.P)
 	v.E = nil
 	for _, r := range raw.E {
@@ -189,4 +191,43 @@ func Build(v Val) (*redis.Message, error) {
 		return m, nil
 	}
 	return nil, fmt.Errorf("cannot build %q", v.T)
+}
+
+// encVal is the harness's own canonical RESP2 encoder (test-data generation
+// only; validity of what it produces is re-checked by the specification).
+func encVal(v Val) []byte {
+	var out []byte
+	switch v.T {
+	case "str":
+		out = append(append(append(out, '+'), v.P...), '\r', '\n')
+	case "err":
+		out = append(append(append(out, '-'), v.P...), '\r', '\n')
+	case "int":
+		out = append(append(append(out, ':'), v.P...), '\r', '\n')
+	case "bulk":
+		out = append(out, '$')
+		out = append(out, fmtInt(len(v.P))...)
+		out = append(out, '\r', '\n')
+		out = append(out, v.P...)
+		out = append(out, '\r', '\n')
+	case "null":
+		out = append(out, "$-1\r\n"...)
+	case "arr":
+		out = append(out, '*')
+		out = append(out, fmtInt(len(v.E))...)
+		out = append(out, '\r', '\n')
+		for _, e := range v.E {
+			out = append(out, encVal(e)...)
+		}
+	}
+	return out
+}
+
+// request encodes a command request (array of bulk strings).
+func request(args ...string) []byte {
+	v := Val{T: "arr"}
+	for _, a := range args {
+		v.E = append(v.E, Val{T: "bulk", P: []byte(a)})
+	}
+	return encVal(v)
 }
